@@ -242,3 +242,137 @@ func TestC08Listener(t *testing.T) {
 		Rule: "layer 2, the real tcpLineListener (real TCP connection, connection wrapper, runConnection; flush interval - a defs variable - 150-300 ms): one single-line record, a pause of 0-2.2 intervals, then 60-120 multi-line records (2-4 lines) each written in 1-4 TCP segments (cut after the first line, inside the second, or one segment per line) 0-2 ms apart; oracle: every first line comes out exactly once and in order, no record twice, and the number of records that come out cut is at most 2*floor(E/T)+2 for the measured life time E of the connection (a time-out flush and a deadline-renewal flush can each happen at most once per interval T; measured generously, so load only weakens the bound); non-trivial = the connection outlived one interval and >= 10 records were written in several segments after that",
 	})
 }
+
+// Single-line records through the real listener: "for streams of single-line records this also holds under any timing of
+// the periodic flush". A record is written in two segments with a pause in between that may be longer than the flush
+// interval (a time-out flush happens while half a line is buffered): every record must still come out whole, once, in order.
+
+type SRec struct {
+	Len     int `json:"len"`     // payload length
+	CutPm   int `json:"cutPm"`   // 0 = one write; else the line is cut at this per-mille of its length
+	PausePc int `json:"pausePc"` // pause between the two writes in % of the flush interval
+	AfterPc int `json:"afterPc"` // pause after the record in % of the flush interval
+}
+
+type SCase struct {
+	FlushMs int    `json:"flushMs"`
+	Recs    []SRec `json:"recs"`
+}
+
+func runListenerSingle(c SCase) vh.Result {
+	res := vh.Result{}
+	old := defs.InputFlushInterval
+	defs.InputFlushInterval = time.Duration(c.FlushMs) * time.Millisecond
+	defer func() { defs.InputFlushInterval = old }()
+	T := defs.InputFlushInterval
+	recv := &recReceiver{}
+	stop := channels.NewSignalAwaitable()
+	lsnr, addr, err := tcplistener.NewTCPLineListener(logger.Root(), "127.0.0.1:0", syslogprotocol.TestRecordStart, recv, stop)
+	if err != nil {
+		panic(err)
+	}
+	lsnr.Start()
+	defer func() {
+		stop.Signal()
+		lsnr.Stopped().Wait(10 * time.Second)
+	}()
+	conn, err := net.Dial("tcp", addr)
+	if err != nil {
+		panic(err)
+	}
+	_ = conn.(*net.TCPConn).SetNoDelay(true)
+	var want []string
+	midLinePause := false
+	for i, r := range c.Recs {
+		line := lhead(i) + " " + string(bytes.Repeat([]byte{byte('a' + i%26)}, r.Len))
+		want = append(want, line)
+		full := line + "\n"
+		if r.CutPm > 0 {
+			cut := len(full) * r.CutPm / 1000
+			if cut < 1 {
+				cut = 1
+			}
+			if cut >= len(full) {
+				cut = len(full) - 1
+			}
+			if _, werr := conn.Write([]byte(full[:cut])); werr != nil {
+				panic(werr)
+			}
+			if r.PausePc >= 100 {
+				midLinePause = true
+			}
+			time.Sleep(T * time.Duration(r.PausePc) / 100)
+			full = full[cut:]
+		}
+		if _, werr := conn.Write([]byte(full)); werr != nil {
+			panic(werr)
+		}
+		time.Sleep(T * time.Duration(r.AfterPc) / 100)
+	}
+	_ = conn.Close()
+	deadline := time.Now().Add(10 * time.Second)
+	var got [][]byte
+	for {
+		got = recv.snapshot()
+		if len(got) >= len(want) || time.Now().After(deadline) {
+			break
+		}
+		time.Sleep(time.Millisecond)
+	}
+	time.Sleep(2 * time.Millisecond)
+	got = recv.snapshot()
+	res.NonTrivial = midLinePause
+	if midLinePause {
+		res.Classes = append(res.Classes, "pause-longer-than-the-flush-interval-inside-a-line")
+	}
+	for i := 0; i < len(want) || i < len(got); i++ {
+		g, w := "<nothing>", "<nothing>"
+		if i < len(got) {
+			g = string(bytes.TrimRight(got[i], "\n"))
+		}
+		if i < len(want) {
+			w = want[i]
+		}
+		if g != w {
+			res.Violation = vh.Fail("listener:single-line-framing", "message %d of %d: got %.120q (%d bytes), sent %.120q (%d bytes); record %d was written with cut=%d/1000 pause=%d%% of the flush interval", i, len(want), g, len(g), w, len(w), i, recAt(c, i).CutPm, recAt(c, i).PausePc)
+			return res
+		}
+	}
+	return res
+}
+
+func recAt(c SCase, i int) SRec {
+	if i < len(c.Recs) {
+		return c.Recs[i]
+	}
+	return SRec{}
+}
+
+func genListenerSingle(t *rapid.T) SCase {
+	c := SCase{FlushMs: rapid.SampledFrom([]int{30, 50}).Draw(t, "flushMs")}
+	n := rapid.IntRange(3, 25).Draw(t, "n")
+	long := 0
+	for i := 0; i < n; i++ {
+		r := SRec{Len: rapid.SampledFrom([]int{0, 1, 30, 200, 1500}).Draw(t, "len")}
+		if rapid.Bool().Draw(t, "cut") {
+			r.CutPm = rapid.IntRange(1, 999).Draw(t, "cutPm")
+			r.PausePc = rapid.SampledFrom([]int{0, 30, 120, 250}).Draw(t, "pausePc")
+		}
+		r.AfterPc = rapid.SampledFrom([]int{0, 0, 0, 30, 120}).Draw(t, "afterPc")
+		if r.PausePc >= 100 || r.AfterPc >= 100 {
+			long++
+			if long > 5 { // bound the duration of a case
+				r.PausePc, r.AfterPc = 0, 0
+			}
+		}
+		c.Recs = append(c.Recs, r)
+	}
+	return c
+}
+
+func TestC08ListenerSingle(t *testing.T) {
+	vh.Run(t, vh.Spec[SCase]{
+		Name: "listener-single-line", Gen: genListenerSingle, Run: runListenerSingle, Quick: 60, Thorough: 1500, ShrinkSeconds: 20,
+		Rule: "layer 2, the real tcpLineListener (flush interval 30/50 ms): 3-25 single-line records of 60-1600 bytes, each written whole or cut at a random byte with a pause of 0 / 0.3 / 1.2 / 2.5 flush intervals between the two segments and between records; oracle: the emitted messages are exactly the lines sent, once and in order; non-trivial = a pause longer than the flush interval inside a line (a time-out flush happened while half a line was buffered)",
+	})
+}
